@@ -1098,7 +1098,7 @@ def argmax(matrix, axis=None, bits=None):
         raise PyrtlError('error: bits cannot be negative or zero, '
                          'got %s instead' % bits)
 
-    max_number = max(matrix, axis=axis, bits=bits)
+    max_number = max(matrix, axis=axis, bits=matrix.bits)
     if axis is None:
         index = Const(0)
         arg = matrix.rows * matrix.columns - 1
